@@ -174,6 +174,8 @@ def cond_z3(c):
         return z3.BoolVal(bool(c.a))
     if c.kind == 'atom':
         return z3.Bool('b!' + c.a)
+    if c.kind == 'z3':
+        return c.a
     raise CheckerError('cond_z3: %r' % (c,))
 
 
@@ -424,6 +426,9 @@ class Interp(object):
         self.solver_time = 0.0
         self.builtins = make_builtins(self)
         self.trace_calls = []
+        self.return_hooks = {}          # qualname -> callable(interp, frame, return value)
+        self.algebraic_minmax = False   # abs/min/max of symbolic reals as constrained atoms instead of forks
+        self.feas_timeout = 3000
         self.abstract_locals = {}       # (function, local name) -> atom: let-abstraction of an intermediate
         self.local_defs = {}            # atom -> [(value, path conds, line)] recorded definitions (own obligation)
         self.generic_concrete = set()   # names of loop variables whose concrete ranges are executed generically
@@ -524,6 +529,11 @@ class Interp(object):
                 out = ('raise', e)
             except Infeasible:
                 out = None
+            except Exception as e:
+                if e.__class__.__name__ == 'PathEnd':
+                    out = ('end', None)
+                else:
+                    raise
             for alt in self.path.pending:
                 work.append(alt)
             if out is not None:
@@ -536,7 +546,7 @@ class Interp(object):
     def feasible(self, conds):
         import time
         s = z3.Solver()
-        s.set('timeout', 3000)
+        s.set('timeout', self.feas_timeout)
         for f in self.facts:
             s.add(f)
         for c in conds:
@@ -818,6 +828,12 @@ class Interp(object):
             new = self.c_intdiv(cur, rhs, s)
         elif self.generic and isinstance(t, ast.Name) and (isinstance(cur, Poison) or hasattr(cur, 'seq')):
             new = self.generic[-1].carried(self, t.id, s, rhs, fr)
+        elif hasattr(cur, 'oid') and hasattr(cur, 'term'):
+            # numpy in-place update of an array object: same object identity, new value
+            new = self.binop(s.op, cur, rhs, s, fr)
+            if hasattr(new, 'oid'):
+                new.oid = cur.oid
+            self.path.log.append(('mutate', cur.oid, s.lineno))
         else:
             new = self.binop(s.op, cur, rhs, s, fr)
         self.assign(t, new, fr)
@@ -1270,6 +1286,20 @@ class Interp(object):
             r = self.cmp1(ast.In(), a, b, node)
             return r.neg() if isinstance(r, Cond) else (not r)
         sym = {'Eq': '==', 'NotEq': '!=', 'Lt': '<', 'LtE': '<=', 'Gt': '>', 'GtE': '>='}[name]
+        if a.__class__.__name__ == 'LenOf':
+            ne = a.gl.nonempty
+            if (sym, b) in (('>', 0), ('>=', 1), ('!=', 0)):
+                return ne
+            if (sym, b) in (('==', 0), ('<', 1), ('<=', 0)):
+                return ne.neg() if isinstance(ne, Cond) else (not ne)
+            raise CheckerError('line %d: comparison of a symbolic list length' % node.lineno)
+        if isinstance(a, Cond) or isinstance(b, Cond):
+            # comparisons with symbolic booleans: == False / == True
+            if isinstance(a, Cond) and isinstance(b, bool) and sym in ('==', '!='):
+                return a if (b == (sym == '==')) else a.neg()
+            if isinstance(b, Cond) and isinstance(a, bool) and sym in ('==', '!='):
+                return b if (a == (sym == '==')) else b.neg()
+            raise CheckerError('line %d: comparison involving a symbolic boolean' % node.lineno)
         if isinstance(a, Poison) or isinstance(b, Poison):
             raise CheckerError('line %d: loop-carried value compared (%s)' % (node.lineno, a if isinstance(a, Poison) else b))
         a, b = _unwrap0(a), _unwrap0(b)
@@ -1533,10 +1563,15 @@ class Interp(object):
             raise CheckerError('call depth exceeded in %s' % f.qualname)
         self.trace_calls.append(f.qualname)
         try:
-            self.exec_block(f.node.body, fr)
-            return None
-        except _Return as r:
-            return r.v
+            try:
+                self.exec_block(f.node.body, fr)
+                rv = None
+            except _Return as r:
+                rv = r.v
+            h = self.return_hooks.get(f.qualname)
+            if h is not None:
+                h(self, fr, rv)
+            return rv
         finally:
             self.call_depth -= 1
 
@@ -1673,6 +1708,11 @@ def make_builtins(interp):
         if isinstance(x, P):
             if x.is_const():
                 return P.const(abs(x.const_value()))
+            if interp.algebraic_minmax:
+                a = P.atom('abs(%s)' % normal(x).text())
+                az, xz = to_z3(a), to_z3(x)
+                interp.path.conds.append(Cond('z3', z3.And(az >= 0, z3.Or(az == xz, az == -xz))))
+                return a
             if interp.truth(compare('>=', x, 0)):
                 return x
             return -x
@@ -1683,6 +1723,13 @@ def make_builtins(interp):
             vals = list(a[0]) if len(a) == 1 else list(a)
             if not vals:
                 raise SymRaise('ValueError', ('empty sequence',))
+            if interp.algebraic_minmax and any(isinstance(_unwrap0(v), P) and not _unwrap0(v).is_const() for v in vals):
+                ps = [_unwrap0(v) if isinstance(_unwrap0(v), P) else P.const(_unwrap0(v)) for v in vals]
+                a = P.atom('%s(%s)' % ('max' if ismax else 'min', ','.join(normal(q).text() for q in ps)))
+                az = to_z3(a)
+                zs = [to_z3(q) for q in ps]
+                interp.path.conds.append(Cond('z3', z3.And(z3.Or(*[az == q for q in zs]), *[(az >= q if ismax else az <= q) for q in zs])))
+                return a
             best = vals[0]
             for v in vals[1:]:
                 c = compare('>' if ismax else '<', _unwrap0(v), _unwrap0(best))
